@@ -983,6 +983,11 @@ SemModel generateSemModel(Rng &rng, const SemOptions &opt)
             NlaSystem sys;
             sys.comp = static_cast<int>(rng.below(static_cast<uint64_t>(m.ncomp)));
             int n = rng.range(1, 3);
+            if (opt.nlaInterleave) {
+                sys.comp = m.nla.empty() ? sys.comp : m.nla[0].comp;
+                n = rng.range(2, 3);
+                m.nlaInterleave = true;
+            }
             for (int i = 0; i < n; ++i) {
                 int qi = newQuantity(QKind::NLA_UNKNOWN, 0);
                 auto &q = m.q[static_cast<size_t>(qi)];
@@ -1255,9 +1260,20 @@ IrModel semToIr(const SemModel &m)
         }
         eqs[static_cast<size_t>(di.comp)].push_back(q.lhsOnRight && q.kind != QKind::STATE ? mkOp(Op::EQ, {rhs, lhs}) : mkOp(Op::EQ, {lhs, rhs}));
     }
-    for (const auto &sys : m.nla) {
-        for (const auto &eq : sys.equations) {
-            eqs[static_cast<size_t>(sys.comp)].push_back(mkOp(Op::EQ, {nameLeaves(m, eq.lhs, sys.comp), nameLeaves(m, eq.rhs, sys.comp)}));
+    if (m.nlaInterleave) {
+        for (size_t i = 0; i < 4; ++i) {
+            for (const auto &sys : m.nla) {
+                if (i < sys.equations.size()) {
+                    const auto &eq = sys.equations[i];
+                    eqs[static_cast<size_t>(sys.comp)].push_back(mkOp(Op::EQ, {nameLeaves(m, eq.lhs, sys.comp), nameLeaves(m, eq.rhs, sys.comp)}));
+                }
+            }
+        }
+    } else {
+        for (const auto &sys : m.nla) {
+            for (const auto &eq : sys.equations) {
+                eqs[static_cast<size_t>(sys.comp)].push_back(mkOp(Op::EQ, {nameLeaves(m, eq.lhs, sys.comp), nameLeaves(m, eq.rhs, sys.comp)}));
+            }
         }
     }
     for (size_t c = 0; c < eqs.size(); ++c) {
